@@ -15,13 +15,17 @@ import E2P.Model.Peg
 namespace E2P
 
 /-- the table `CompositeBaseToken._MEMO.table` (newest entry first, a later entry for a key shadows an older one) and
-    the number of `_get` executions so far -/
+    the log of `_get` executions so far -/
 structure MemoSt where
   memo : List ((String × Nat) × PRes)
-  calls : Nat
+  /-- ghost: the key of every `_get` execution so far, newest first -/
+  log : List (String × Nat)
   deriving Inhabited
 
-def MemoSt.empty : MemoSt := ⟨[], 0⟩
+def MemoSt.empty : MemoSt := ⟨[], []⟩
+
+/-- the number of `_get` executions so far -/
+def MemoSt.calls (s : MemoSt) : Nat := s.log.length
 
 def MemoSt.find (s : MemoSt) (k : String × Nat) : Option PRes := s.memo.lookup k
 
@@ -69,7 +73,7 @@ def pegGetM (G : Grammar) : Nat → String → List Tok → MemoSt → PRes × M
     match s.find (cls, toks.length) with
     | some r => (r, s)                                                       -- `key in memo`
     | none =>
-      match trySetsM G (pegGetM G fuel) cls toks (G.setsOf cls) false { s with calls := s.calls + 1 } with
+      match trySetsM G (pegGetM G fuel) cls toks (G.setsOf cls) false { s with log := (cls, toks.length) :: s.log } with
       | (.ok t rest, s') => (.ok t rest, { s' with memo := ((cls, toks.length), .ok t rest) :: s'.memo })
       | (.none, s') => (.none, { s' with memo := ((cls, toks.length), .none) :: s'.memo })
       | (.raise, s') => (.raise, s')                                         -- the exception skips the assignment
